@@ -8,8 +8,8 @@
 (*               | [kind |-> "case", prop, opi, c : [labels, parts, alt, hasBody, body, media, dup, methodDocumented,  *)
 (*                                                   exempt]]                                  C01 / C02 / C03 cases   *)
 (*               | [kind |-> "outcome", prop, opi, outcome, negOnly]                           C01 / C02 outcome rule  *)
-(* One state per observation.  Prints <<"DISAGREE", i, rule, detail>> for every observation that breaks its   *)
-(* rule and <<"UNDECIDED", i>> when the oracle had no definite verdict at all (counted as outside the fragment).      *)
+(* One state per observation.  Prints <<"DISAGREE", json [i, rule, detail]>> for every observation that breaks its   *)
+(* rule and <<"UNDECIDED", json [i]>> when the oracle had no definite verdict at all (outside the fragment).           *)
 EXTENDS GenData, IOUtils
 Doc == JsonDeserialize(IOEnv.OBS_FILE)
 Obs == Doc.obs
@@ -43,8 +43,10 @@ ViolatedKw(o) == LET sc == Doc.schemas[o.si]
                  IF d.sk # "schema" THEN {}
                  ELSE {k \in DOMAIN d \ {"sk", "nullable", "exclMin", "exclMax"} :
                          ValidD(sc.defs, RestrictTo(d, KwKeys(k) \cup {k}), o.value, "request", sc.dia) = "F"}
+NoWitness(o) == LET sc == Doc.schemas[o.si] IN        \* no value of the bounded universe satisfies the declared schema
+                ~BodySat([defs |-> sc.defs, dia |-> sc.dia], [schema |-> sc.schema])
 Detail(o, vs) ==
-  CASE o.kind = "value" -> ViolatedKw(o)
+  CASE o.kind = "value" -> ViolatedKw(o) \cup (IF NoWitness(o) THEN {"no-witness"} ELSE {})
     [] o.kind = "case" -> {<<p, vs[p], o.c.labels[p]>> : p \in {p \in Parts : Present(o.c, p) \/ o.c.labels[p] # "none"}}
     [] OTHER -> {}
 Definite(o, vs) ==
@@ -55,6 +57,6 @@ Report == i = 0 \/
           LET o == Obs[i]
               vs == Vs(o)
               r == Rule(o, vs) IN
-          /\ IF r = "ok" THEN TRUE ELSE PrintT(<<"DISAGREE", i, r, Detail(o, vs)>>)
-          /\ IF Definite(o, vs) THEN TRUE ELSE PrintT(<<"UNDECIDED", i>>)
+          /\ IF r = "ok" THEN TRUE ELSE PrintT(<<"DISAGREE", ToJson([i |-> i, rule |-> r, detail |-> Detail(o, vs)])>>)
+          /\ IF Definite(o, vs) THEN TRUE ELSE PrintT(<<"UNDECIDED", ToJson([i |-> i])>>)
 =============================================================================
